@@ -13,14 +13,18 @@ use std::pin::Pin;
 use std::sync::atomic::Ordering::Relaxed;
 use std::task::{Context, Poll, Waker};
 
+/// more child / source / upstream polls than this inside one op: `ret runaway`
 pub const WATCHDOG_LIMIT: usize = 20000;
+/// the limit in force (`FBHARNESS_WATCHDOG=<n>` overrides it, for testing the watchdog)
+pub static WATCHDOG: std::sync::atomic::AtomicUsize =
+    std::sync::atomic::AtomicUsize::new(WATCHDOG_LIMIT);
 
 /// panic payload of the watchdog
 pub struct Runaway;
 
 fn watchdog_tick() {
     let n = POLLS_IN_OP.fetch_add(1, Relaxed) + 1;
-    if n > WATCHDOG_LIMIT {
+    if n > WATCHDOG.load(Relaxed) {
         std::panic::panic_any(Runaway);
     }
 }
@@ -365,6 +369,7 @@ macro_rules! source_type {
             pub fn idx(&self) -> usize {
                 self.idx
             }
+            #[allow(dead_code)]
             pub fn cid(&self) -> u32 {
                 self.cid
             }
